@@ -129,6 +129,23 @@ def apply_op(path, model, op):
             return model, f"read_batch(range) does not return the file's rows in the requested units: {out1.tolist()} vs {want.tolist()}"
         if out2.shape != want.shape or not np.allclose(out2, want[::-1], rtol=1e-13, atol=0):
             return model, f"read_batch(index array) does not return the file's rows in the requested units: {out2.tolist()} vs {want[::-1].tolist()}"
+        # ALL columns of the file, requested in another order than the file's own (reversed; rotated by one)
+        allc = list(model.cols)
+        for colsx in (allc[::-1], allc[1:] + allc[:1]):
+            wantx = np.zeros((n, len(colsx)))
+            for j, c in enumerate(colsx):
+                v, un = model.cols[c]
+                f = (u.Unit(un) if un else u.one).to(want_units[c]) if c in want_units else 1.0
+                wantx[:, j] = v * f
+            try:
+                o1 = np.asarray(read_batch(path, colsx, (0, n), units=want_units))
+                o2 = np.asarray(read_batch(path, colsx, slice(0, n), units=want_units))
+                o3 = np.asarray(read_batch(path, colsx, np.arange(n)[::-1].copy(), units=want_units))
+            except Exception as e:
+                return model, f"read_batch of all columns {colsx} raised {type(e).__name__}: {e}"
+            for what, o, w in (("(start, stop)", o1, wantx), ("slice", o2, wantx), ("index array", o3, wantx[::-1])):
+                if o.shape != w.shape or not np.allclose(o, w, rtol=1e-13, atol=0):
+                    return model, f"read_batch({what}) of all columns in the order {colsx} does not return them in that order: {o.tolist()} vs {w.tolist()}"
         return model, None
     if op[0] == "read":
         try:
@@ -141,6 +158,40 @@ def apply_op(path, model, op):
             return model, (None if got is None else "read of a missing file returned data")
         d = T.diff(got, model)
         return model, ("read: " + d) if d else None
+    # a second sample table stored in a group of the SAME file (the documented "one file, several stars" use): append and
+    # append+overwrite act on their own dataset only, so it must survive them whether they are accepted or refused
+    mode = op[2]
+    side = None
+    if model is not None and mode in ("append", "append_overwrite") and os.path.exists(path):
+        import h5py
+
+        side = _norm(table("B"))
+        with h5py.File(path, "a") as f:
+            T.to_impl(side).write(f.require_group("other/2M00"))
+    new_model, err = _write_op(path, model, op)
+    if side is not None and os.path.exists(path):
+        import h5py
+
+        msg = None
+        try:
+            with h5py.File(path, "a") as f:
+                if "other/2M00" not in f:
+                    msg = "gone"
+                else:
+                    msg = T.diff(T.from_impl(tj.JokerSamples.read(f["other/2M00"])), side)
+                    del f["other"]
+        except Exception as e:
+            msg = f"unreadable ({type(e).__name__}: {e})"
+        if msg and err is None:
+            err = f"{mode} write of {op[1]} damaged another sample table stored in a group of the same file: {msg}"
+    elif side is not None and err is None:
+        err = f"{mode} write of {op[1]} removed the file that also held another sample table"
+    return new_model, err
+
+
+def _write_op(path, model, op):
+    import thejoker as tj
+
     tname, mode = op[1], op[2]
     route = op[3] if len(op) > 3 else "name"
     new = _norm(table(tname))
@@ -253,7 +304,7 @@ def expand(args):
                 os.unlink(path)
             continue
         key = None if new_model is None else new_model.key()
-        keep = os.path.join(scratch, f"s-{wid}-{os.getpid()}-{oi}.hdf5")
+        keep = os.path.join(scratch, f"s-L{len(hist)}-{wid}-{os.getpid()}-{oi}.hdf5")  # unique per BFS level: a later level must not overwrite a state file still waiting in the frontier
         if os.path.exists(path):
             os.replace(path, keep)
             out.append((key, keep, new_model, h))
